@@ -7,7 +7,18 @@ initialisers evaluated by Default::default(), re-declarations (last wins), gener
 #![measure_rule_times], #![generate_run_timeout] (run() and run_timeout(Duration::MAX)), all at once, every token re-spanned
 to Span::call_site() by a helper proc macro (as another proc macro would emit the program; alone and with includes); and every
 crate is built a second time with the `segment-codegen` feature of the `ascent` crate.  All must produce the
-relations (as sets + row counts) of the specification oracle (Engine/Sem.v naive_fix / Strat.strat_fix)."""
+relations (as sets + row counts) of the specification oracle (Engine/Sem.v naive_fix / Strat.strat_fix).
+
+Observables: per relation the SET of rows and the NUMBER of rows.  The input of a relation is a set (initialisers and
+assigned vectors hold distinct tuples; a lattice: one row per key), so the specification answer has exactly one row per
+derivable tuple (one row per key holding the join of all derivable values for a write-only lattice): a duplicated row is a
+violation although the sets agree.
+
+Family `wo` (gen_wo_case): programs with WRITE-ONLY relations (accumulators / outputs that no rule body, negation or
+aggregate mentions) that carry initial rows, and rules that derive some of those initial rows again; half of them with
+some write-only relations declared `lattice` (the initial row of a key is derived again with a lower / equal / higher
+value).  Packagings run_wo_init / runpar_wo_init / run_part_init initialise only those relations in ascent_run! /
+ascent_run_par! (nothing initialised is ever looked up by a rule body, but head updates look every row up)."""
 import json
 import os
 
@@ -29,13 +40,23 @@ def detuple(x):
     return x
 
 
+def rels_from_json(rs):
+    return [(r[0], r[1], r[2] if isinstance(r[2], str) else tuple(r[2])) for r in rs]
+
+
 def case_from_json(c, cid):
     p = c["prog"]
-    pr = dict(rels=[(r[0], r[1], r[2] if isinstance(r[2], str) else tuple(r[2])) for r in p["rels"]],
+    pr = dict(rels=rels_from_json(p["rels"]),
               rules=[dict(heads=[(h[0], detuple(h[1])) for h in r["heads"]], body=detuple(r["body"])) for r in p["rules"]],
               shape=p.get("shape", "corpus"))
     inputs = [{r: [tuple(t) for t in ts] for r, ts in inp.items()} for inp in c["inputs"]]
-    return dict(id=cid, prog=pr, inputs=inputs, origin=c.get("origin", "corpus"))
+    out = dict(id=cid, prog=pr, inputs=inputs, origin=c.get("origin", "corpus"))
+    if c.get("view"):
+        # the declarations used by the packagings: as prog.rels, some write-only relations declared `lattice`
+        out["view"] = rels_from_json(c["view"])
+    if c.get("wo_family"):
+        out["wo_family"] = True
+    return out
 
 
 def load_corpus():
@@ -65,6 +86,149 @@ def gen_cases(tier, seed):
     return cases
 
 
+# ------------------------------------------------------------------ family `wo`: initialised write-only relations
+
+def _eval_head(args, env):
+    out = []
+    for t in args:
+        if t[0] == "v":
+            out.append(env[t[1]])
+        elif t[0] == "c":
+            out.append(t[1])
+        else:
+            out.append(dl.py_fun(t[1], [env[x] for x in t[2]]))
+    return tuple(out)
+
+
+def gen_wo_case(rng, cid, lattice):
+    """a random program of gen/gen_dl.py (C01-style or stratified with aggregates / negation) extended by write-only
+    relations w*: `anchor` rules w(h(x..)) <-- r(x..) over relations of the base program (so every input row of r derives a
+    known row of w), further random rules and recursive multi-head rules with heads in w*; inputs: for the base relations
+    random (or, `facts` mode, none at all: their rows are fact rules of the program, so that the initialised relations are
+    the whole input), for w* a sample of the rows that WILL be derived again plus unrelated rows."""
+    base = gen_dl.gen_strat_program(rng) if rng.random() < 0.3 else gen_dl.gen_program(rng, dict(nrels=[1, 2, 2, 3], nrules=[0, 1, 2, 3], p_multihead_recursive=0.15))
+    brels = list(base["rels"])
+    rules = list(base["rules"])
+    ws = [("w%d" % i, rng.choice([1, 2, 2, 3]), "rel") for i in range(rng.choice([1, 2, 2, 3]))]
+    anchors = {w[0]: [] for w in ws}
+    for w in ws:
+        for _ in range(rng.choice([1, 1, 2])):
+            s = rng.choice(brels)
+            vs = ["a%d" % i for i in range(s[1])]
+            head = []
+            for _ in range(w[1]):
+                u = rng.random()
+                if u < 0.62:
+                    head.append(("v", rng.choice(vs)))
+                elif u < 0.82:
+                    f = rng.choice(sorted(dl.FUNS))
+                    head.append(("f", f, [rng.choice(vs) for _ in range(dl.FUNS[f][1])]))
+                else:
+                    head.append(("c", rng.choice(gen_dl.DOM)))
+            rules.append(dict(heads=[(w[0], head)], body=[("clause", s[0], [("v", x) for x in vs], [])]))
+            anchors[w[0]].append((s[0], vs, head))
+    for _ in range(rng.choice([0, 1, 1, 2])):
+        rules.append(gen_dl.gen_rule(rng, brels, {}, head_rels=ws))
+    if rng.random() < 0.5:
+        # a recursive rule of the base program that also writes an accumulator: rec(..), w(..) <-- rec(..), r(..)
+        rec = rng.choice(brels)
+        # (a stratified base program: the body stays inside rec, a clause over another level could close a cycle through a negation)
+        g = gen_dl.RuleGen(rng, [rec] if base.get("shape") == "stratified" else brels, dict(p_clause_cond=0.0))
+        body = [g.clause(rec), g.clause()]
+        heads = [g.head(rec), g.head(rng.choice(ws))]
+        rng.shuffle(heads)
+        rules.append(dict(heads=heads, body=body))
+    facts_mode = rng.random() < 0.35
+    inputs = []
+    binp = gen_dl.gen_input(rng, brels, style=rng.choice(["small", "mixed", "sparse_chain"]))[0]
+    const_rows = {}
+    if rng.random() < 0.4:
+        w = rng.choice(ws)
+        const_rows[w[0]] = tuple(rng.choice(gen_dl.DOM) for _ in range(w[1]))
+        rules.append(dict(heads=[(w[0], [("c", v) for v in const_rows[w[0]]])], body=[]))
+    if facts_mode:
+        for n, a, _ in brels:
+            for t in binp[n][:6]:
+                rules.append(dict(heads=[(n, [("c", v) for v in t])], body=[]))
+            binp[n] = binp[n][:6]
+    rng.shuffle(rules)
+    lat = []
+    if lattice:
+        lat = [w[0] for w in ws if rng.random() < 0.6] or [ws[0][0]]
+    rederived = []
+    for k in range(2):
+        if facts_mode:
+            src_rows = binp
+            inp = {n: [] for n, _, _ in brels}
+        else:
+            src_rows = binp if k == 0 else gen_dl.gen_input(rng, brels, style=rng.choice(["small", "mixed", "dense"]))[0]
+            inp = {n: list(ts) for n, ts in src_rows.items()}
+        nre = 0
+        for w in ws:
+            derived = []
+            for sname, vs, head in anchors[w[0]]:
+                for t in src_rows[sname]:
+                    h = _eval_head(head, dict(zip(vs, t)))
+                    if h not in derived:
+                        derived.append(h)
+            if w[0] in const_rows:
+                derived.append(const_rows[w[0]])
+            pick = rng.sample(derived, min(len(derived), rng.choice([1, 1, 2, 3, 5]))) if derived else []
+            other = [tuple(rng.choice(gen_dl.DOM + [6, 7]) for _ in range(w[1])) for _ in range(rng.choice([0, 0, 1, 2]))]
+            rows = []
+            if w[0] in lat:
+                # one row per key; the initial value of a key that is derived again: lower / equal / higher than a derived one
+                by = {}
+                for t in pick:
+                    v = t[-1]
+                    by.setdefault(t[:-1], rng.choice([v, v, max(v - rng.choice([1, 2]), 0), min(v + rng.choice([1, 2]), 7)]))
+                nre += len(by)
+                for t in other:
+                    by.setdefault(t[:-1], t[-1])
+                rows = [k_ + (v,) for k_, v in by.items()]
+            else:
+                for t in pick + other:
+                    if t not in rows:
+                        rows.append(t)
+                nre += len(pick)
+            rng.shuffle(rows)
+            inp[w[0]] = rows
+        inputs.append(inp)
+        rederived.append(nre)
+    rels = brels + ws
+    order = list(range(len(rels)))
+    rng.shuffle(order)
+    rels = [rels[i] for i in order]
+    p = dict(rels=rels, rules=rules, shape=base.get("shape", "free"))
+    c = dict(id=cid, prog=p, inputs=inputs, origin="generated-wo", wo_family=True, rederived=rederived, facts_mode=facts_mode)
+    if lat:
+        c["view"] = [(n, a, ("lat", "i32") if n in lat else k) for n, a, k in rels]
+    return c
+
+
+def gen_wo_cases(tier, seed):
+    rng = lib.rng_for(seed, PROP, "wo")
+    n = 6 if tier == "quick" else 40
+    return [gen_wo_case(rng, "c09_w%d" % i, lattice=(i % 2 == 1)) for i in range(n)]
+
+
+def view_prog(c):
+    """the program as the packagings declare it"""
+    return dict(c["prog"], rels=c.get("view") or c["prog"]["rels"])
+
+
+def expected_rows(tuples, kind):
+    """the rows the specification gives relation contents `tuples` (sorted distinct tuples of the logical program, where every
+    relation is a set): a relation holds them one row each; a WRITE-ONLY lattice (the only lattices of the C09 views)
+    holds one row per key with the join (i32: max) of all values derivable for the key, initial row included"""
+    if not c09_pack.is_lat(kind):
+        return list(tuples)
+    by = {}
+    for t in tuples:
+        by[t[:-1]] = max(by.get(t[:-1], t[-1]), t[-1])
+    return sorted((k + (v,) for k, v in by.items()), key=repr)
+
+
 K_LOCALS = "include_source_hides_captured_locals"
 
 
@@ -81,17 +245,21 @@ def known_class(job, iv, pv):
 def compare_job(r, job, res, feature, pred=None):
     """mismatches of one packaging job against the specification answer of the logical program"""
     c = r["case"]
-    rels = c["prog"]["rels"]
+    rels = job.get("rels") or c["prog"]["rels"]          # the view: write-only relations may be declared `lattice`
+    has_lat = any(c09_pack.is_lat(k_) for _, _, k_ in rels)
+    wo = set(c09_pack.write_only_rels(c["prog"]))
     mism, ok = [], 0
     for s in range(job["nscripts"]):
         k = job["script_input"][s]
         spec = r["spec"][k]
         if spec is None:
             continue
-        sg = engine_tie.group_facts(spec, rels)
-        cs = dict(program=r["text"], input=c["inputs"][k], packaging=job["kind"], macro=job["macro"], detail=job["desc"],
+        sg0 = engine_tie.group_facts(spec, rels)
+        sg = {n: (None, expected_rows(sg0[n][1], k_)) for n, _, k_ in rels}
+        cs = dict(program=dl.rust_program_text(dict(c["prog"], rels=rels)), input=c["inputs"][k], packaging=job["kind"], macro=job["macro"], detail=job["desc"],
                   features=list(feature), prog=c["prog"], inputs=c["inputs"], script=s, script_input=job["script_input"],
-                  expect_flags=job["expect_flags"], nscripts=job["nscripts"], module_source=job["src"], job_id=job["id"])
+                  expect_flags=job["expect_flags"], nscripts=job["nscripts"], module_source=job["src"], job_id=job["id"],
+                  view=[list(x) for x in rels], wo_family=bool(c.get("wo_family")))
         iv = res[s] if res else None
         what = None
         got = None
@@ -105,9 +273,14 @@ def compare_job(r, job, res, feature, pred=None):
                 ilen, iset = isnap[name]
                 if iset != sg[name][1] or ilen != len(sg[name][1]):
                     got = {name: dict(len=ilen, tuples=iset)}
-                    what = "packaging %s (%s%s) computes relation %s differently from the logical program: %d rows; missing %s; extra %s" % (
-                        job["kind"], job["macro"], " +segment-codegen" if feature else "", name, ilen,
-                        [t for t in sg[name][1] if t not in iset][:5], [t for t in iset if t not in sg[name][1]][:5])
+                    irows = prog.rows_snap(iv["snaps"][-1])[name]
+                    dup = sorted({t for t in irows if irows.count(t) > 1}, key=repr)
+                    what = "packaging %s (%s%s) computes %s %s differently from the logical program: %d rows, expected %d; missing %s; extra %s; rows held more than once %s" % (
+                        job["kind"], job["macro"], " +segment-codegen" if feature else "", "lattice" if c09_pack.is_lat(dict((n, k_) for n, _, k_ in rels)[name]) else "relation",
+                        name, ilen, len(sg[name][1]),
+                        [t for t in sg[name][1] if t not in iset][:5], [t for t in iset if t not in sg[name][1]][:5], dup[:5])
+                    if name in wo and c["inputs"][k].get(name):
+                        what += " [%s is write-only (no rule body reads it) and starts with %d initial rows]" % (name, len(c["inputs"][k][name]))
                     break
         if what and job["kind"] == "inc_uniform" and pred and iv and "snaps" in iv and "snaps" in pred[s] \
                 and prog.canon_snap(iv["snaps"][-1]) == prog.canon_snap(pred[s]["snaps"][-1]):
@@ -115,15 +288,30 @@ def compare_job(r, job, res, feature, pred=None):
         if what:
             mism.append(dict(case=cs, impl=got if got else iv, model=None, spec={n: sg[n][1] for n, _, _ in rels}, kind="impl_violates_spec",
                              known=known_class(job, iv, pred[s] if pred else None), what=what))
-        else:
-            ok += 1
+            continue
+        ok += 1
+        # model tie of Pack/PackModel.v ascent_run_code: when the initialisers are the WHOLE input of an ascent_run! program,
+        # r["model"] = rows (run_plan (init_state (assign_inits inits))) = rows (ascent_run_code inits) by the proved
+        # c09_init_is_input; rows are compared as multisets sizes + sets (the Engine model has no lattices)
+        whole = job["kind"] == "run_init" or (job["kind"] == "run_wo_init" and all(not ts for n, ts in c["inputs"][k].items() if n not in wo))
+        if whole and job["macro"] == "ascent_run" and not has_lat and r.get("model") and r["model"][k] is not None:
+            mg = engine_tie.group_facts(r["model"][k], rels)
+            isnap = prog.canon_snap(iv["snaps"][-1])
+            for name, _, _ in rels:
+                if isnap[name][1] != mg[name][1] or isnap[name][0] != mg[name][0]:
+                    mism.append(dict(case=cs, impl={name: dict(len=isnap[name][0], tuples=isnap[name][1])}, model={name: mg[name]},
+                                     spec="implementation meets the specification", kind="model_differs", known=None,
+                                     what="correspondence Pack/PackModel.v ascent_run_code (initialisers, ONE index build, SCCs) vs the generated ascent_run! block: relation %s of packaging %s has %d rows, the model %d" % (name, job["kind"], isnap[name][0], mg[name][0])))
+                    break
+            else:
+                job["model_tied"] = job.get("model_tied", 0) + 1
     return mism, ok
 
 
 def replay_case(path):
     rp = json.load(open(path))
     cs = rp["case"]
-    c = case_from_json(dict(prog=cs["prog"], inputs=cs["inputs"]), "c09_replay")
+    c = case_from_json(dict(prog=cs["prog"], inputs=cs["inputs"], wo_family=cs.get("wo_family")), "c09_replay")
     results = engine_tie.run(PROP, [c], tag="c09r", spec="strat")
     r = results[0]
     mism = engine_tie.compare_case(r)
@@ -131,7 +319,7 @@ def replay_case(path):
         return dict(evaluations=0, distinct_nontrivial=0, rule="replay", samples=[], distribution={}, mismatches=mism, infra="specification oracle did not finish on the replayed case")
     if "module_source" in cs:
         job = dict(id=cs["job_id"], kind=cs["packaging"], macro=cs["macro"], desc=cs.get("detail", ""), src=cs["module_source"], nscripts=cs["nscripts"],
-                   script_input=cs["script_input"], expect_flags=cs["expect_flags"])
+                   script_input=cs["script_input"], expect_flags=cs["expect_flags"], rels=rels_from_json(cs["view"]) if cs.get("view") else c["prog"]["rels"])
         feats = tuple(cs.get("features", []))
         res = c09_pack.build_and_run("c09r", [job], nbins=1, features=feats)
         m, ok = compare_job(r, job, res.get(job["id"]), feats)
@@ -143,7 +331,7 @@ def replay_case(path):
 def tie(tier, seed, replay):
     if replay:
         return replay_case(replay)
-    cases = load_corpus() + gen_cases(tier, seed)
+    cases = load_corpus() + gen_wo_cases(tier, seed) + gen_cases(tier, seed)
     results = []
     for i in range(0, len(cases), 96):
         results += engine_tie.run(PROP, cases[i:i + 96], tag="c09", spec="strat")
@@ -159,11 +347,17 @@ def tie(tier, seed, replay):
             continue
         c = r["case"]
         nwit += 1
-        for j in c09_pack.packagings(rng, c["id"], c["prog"], c["inputs"], tier, witness=(nwit <= (4 if tier == "quick" else 12))):
+        for j in c09_pack.packagings(rng, c["id"], view_prog(c), c["inputs"], tier, witness=(nwit <= (4 if tier == "quick" else 12)),
+                                     wo_family=bool(c.get("wo_family"))):
             jobs.append(j)
             owner[j["id"]] = r
     kinds, macros, okc = {}, {}, {}
     distinct = set()
+    wo_stats = dict(programs=sum(1 for r in results if r["case"].get("wo_family")),
+                    with_lattice_view=sum(1 for r in results if r["case"].get("view")),
+                    initial_rows_derived_again=sum(sum(r["case"].get("rederived", [])) for r in results if r["case"].get("wo_family")),
+                    programs_with_write_only_relations=sum(1 for r in results if c09_pack.write_only_rels(r["case"]["prog"])),
+                    scripts_run_with_only_write_only_relations_initialised=0, scripts_tied_to_ascent_run_code_model=0)
     evals = sum(len(r["case"]["inputs"]) for r in results)
     for feats, tag in (((), "c09p"), (("segment-codegen",), "c09ps")):
         impl = {}
@@ -180,6 +374,9 @@ def tie(tier, seed, replay):
             kinds[key] = kinds.get(key, 0) + 1
             okc[key] = okc.get(key, 0) + ok
             macros[j["macro"]] = macros.get(j["macro"], 0) + 1
+            if j["kind"] in ("run_wo_init", "runpar_wo_init"):
+                wo_stats["scripts_run_with_only_write_only_relations_initialised"] += ok
+            wo_stats["scripts_tied_to_ascent_run_code_model"] += j.pop("model_tied", 0)
             for s in range(j["nscripts"]):
                 k = j["script_input"][s]
                 inp = r["case"]["inputs"][k]
@@ -187,13 +384,14 @@ def tie(tier, seed, replay):
                     distinct.add((j["id"], s, bool(feats)))
     sample = []
     for j in jobs[:40]:
-        if j["kind"] in ("inc_two", "redecl", "combo", "run_init") and len(sample) < 4:
+        if j["kind"] in ("inc_two", "redecl", "combo", "run_init", "run_wo_init") and len(sample) < 5:
             sample.append(dict(packaging=j["kind"], macro=j["macro"], detail=j["desc"], module=j["src"][j["src"].find("}} }") + 4:][:1800]))
     return dict(evaluations=evals, distinct_nontrivial=len(distinct),
-                rule="random logical programs (1/4 without interpreted functions, 1/2 C01-style, 1/4 stratified with aggregates / negation) x 2 inputs, each rendered as 14-17 packagings (base, ascent_run! / ascent_run_par! with captured locals as initialisers or in rule bodies, ascent_par!, include_source! start / middle / end / two / adjacent / whole, initialisers via Default, re-declarations, generic signature, all tokens re-spanned to one span by a helper proc macro (alone and with includes), measure_rule_times, generate_run_timeout with run() and run_timeout(MAX), all combined), whole crate built with and without ascent/segment-codegen; every relation compared (set + row count) with the specification oracle of the logical program; non-trivial = the logical program derives at least one fact on that input; distinct = distinct (packaging job, script, feature)",
+                rule="random logical programs (1/4 without interpreted functions, 1/2 C01-style, 1/4 stratified with aggregates / negation; plus the family `wo`: programs with initialised WRITE-ONLY relations whose initial rows are derived again, half of them with write-only relations declared `lattice`) x 2 inputs, each rendered as 14-20 packagings (base, ascent_run! / ascent_run_par! with captured locals as initialisers or in rule bodies, only the write-only relations initialised, a random part of the relations initialised, ascent_par!, include_source! start / middle / end / two / adjacent / whole, initialisers via Default, re-declarations, generic signature, all tokens re-spanned to one span by a helper proc macro (alone and with includes), measure_rule_times, generate_run_timeout with run() and run_timeout(MAX), all combined), whole crate built with and without ascent/segment-codegen; every relation compared (set of rows AND number of rows: one row per derivable tuple, one row per key of a lattice) with the specification oracle of the logical program; non-trivial = the logical program derives at least one fact on that input; distinct = distinct (packaging job, script, feature)",
                 samples=sample, distribution=dict(programs=len(results), packaging_jobs=kinds, scripts_agreeing=okc, macros=macros,
                                                   pure_programs=sum(1 for r in results if c09_pack.is_pure(r["case"]["prog"])),
-                                                  with_aggregates=sum(1 for r in results if r["case"]["prog"].get("shape") == "stratified")),
+                                                  with_aggregates=sum(1 for r in results if r["case"]["prog"].get("shape") == "stratified"),
+                                                  write_only_family=wo_stats),
                 mismatches=mism,
                 trusted_base=["gen/c09_pack.py renders the packagings (a wrong rendering shows as a false alarm, not as a silent pass: the expected answer comes from the logical program alone)",
                               "FRONT hook + gen/dl.py plan translation + Engine/Eval.v model for the base packaging; specification oracle strat_fix / naive_fix evaluated inside Coq",
